@@ -16,7 +16,8 @@ TIMES = [(0, 0), (1, 1), (127, 128), (255, 256), (32767, 32768), (65535, 65536),
 
 def g_v3cfg(u, need_auth=False, need_priv=False):
     cfg = gen.g_cfg(u, versions=("v3",), need_auth=need_auth, need_priv=need_priv)
-    n = u.range(5, 32)
+    # RFC 3411 engine ids are 5..32 octets; the library accepts longer ones and must still sign / encrypt correctly
+    n = u.range(5, 32) if u.below(8) else u.choice([33, 64, 126, 127, 128, 129, 200, 255, 256])
     eid = b"\x80" + u.take(n - 1)
     cfg.engine_id = eid
     # RFC 3414 limits msgUserName to 32 octets but the library accepts any length, and whatever it emits must be signed
